@@ -199,11 +199,20 @@ def run_kl(ctx, case):
              labels=['overlapping factors' if overlap else 'disjoint factors'])
     r = ref.rng(case['prng'])
     op_list = [[(list(idx), ref.rand_complex(r, 2 ** len(idx), 2 ** len(idx))) for idx in t] for t in case['terms']]
-    a = torch.tensor(r.normal(size=(K, 2 ** n)), requires_grad=True)
-    b = torch.tensor(r.normal(size=(K, 2 ** n)), requires_grad=True)
+    transposed = bool(case['prng'] % 3 == 1)  # code words held column-wise and handed over as a (non-contiguous) transposed view
+    if transposed:
+        a_ = torch.tensor(r.normal(size=(2 ** n, K)), requires_grad=True)
+        b_ = torch.tensor(r.normal(size=(2 ** n, K)), requires_grad=True)
+        ctx.label('non-contiguous code words')
+    else:
+        a_ = torch.tensor(r.normal(size=(K, 2 ** n)), requires_grad=True)
+        b_ = torch.tensor(r.normal(size=(K, 2 ** n)), requires_grad=True)
     cot = torch.tensor(ref.rand_complex(r, len(op_list), K, K))
 
+    a, b = (a_.T, b_.T) if transposed else (a_, b_)
+
     def f():
+        a, b = (a_.T, b_.T) if transposed else (a_, b_)
         q = torch.complex(a, b)
         ip = nq.qec.knill_laflamme_inner_product(q, op_list)
         return (ip * cot).sum().real + (ip.abs() ** 2).sum() * 0.1
@@ -228,8 +237,8 @@ def run_kl(ctx, case):
     ctx.close(ip_n, np.stack(want2), 1e-9, 'forward = <i| (factors applied in sequence) |j>', max(1.0, np.abs(ip_n).max()))
     loss = f()
     loss.backward()
-    got = [a.grad.numpy().copy(), b.grad.numpy().copy()]
-    wantg = fd_grad(f, [a, b])
+    got = [a_.grad.numpy().copy(), b_.grad.numpy().copy()]
+    wantg = fd_grad(f, [a_, b_])
     compare_grads(ctx, got, wantg, 'Knill-Laflamme inner product gradient = finite differences')
 
 
